@@ -1,6 +1,6 @@
 (* C31 — Date and IP codecs agree with the standard library. *)
 From FH Require Import Model.Base Gen.GenC31 Spec.Calendar Spec.HttpDate Spec.IPv4Spec Model.DateIP
-  Proof.CalendarFacts Proof.CalendarProof Proof.DateProof Proof.IPv4Proof.
+  Proof.CalendarFacts Proof.CalendarProof Proof.DateProof Proof.IPv4Proof Model.IPv6 Spec.IPv6Text Proof.IPv6Proof.
 Open Scope Z_scope.
 
 (* For every 29-byte input the fast RFC 1123 parser equals spec_time_parse, the strict-shape part of
@@ -42,6 +42,51 @@ Proof.
   rewrite (ipv4_exact _ W). exact H.
 Qed.
 Print Assumptions C31_ipv4_roundtrip.
+
+(* ---- bracketed URI hosts (ipv6.go validateIPv6Literal; spec_ipv6 = netip.ParseAddr(..).Is6(), Spec/IPv6Text.v) ---- *)
+
+(* a bracketed host is accepted only if its address part is an IPv6 address per net/netip *)
+Theorem C31_ipv6_only_valid : forall a, wf_bytes a ->
+  validateIPv6Literal (LBR :: a ++ [RBR]) = V6Nil -> spec_ipv6 a = true.
+Proof. intros a Hwf H. apply ipv6_only_valid; [exact Hwf|]. unfold LBR, RBR in H. now rewrite H. Qed.
+Print Assumptions C31_ipv6_only_valid.
+
+(* the same for any host starting with '[' (ports, garbage, several brackets): whatever is accepted has the shape
+   "[" a "]" optional-port with a an IPv6 address, the ']' being the only one *)
+Theorem C31_ipv6_only_valid_any_host : forall t, wf_bytes t -> validateIPv6Literal (LBR :: t) = V6Nil ->
+  exists a port, t = a ++ RBR :: port /\ ~ In RBR a /\ ~ In RBR port /\ is_port port = true /\ spec_ipv6 a = true.
+Proof. intros t Hwf H. apply ipv6_only_valid_gen; [exact Hwf|]. unfold LBR in H. now rewrite H. Qed.
+Print Assumptions C31_ipv6_only_valid_any_host.
+
+(* every zone-less IPv6 address is accepted, with or without a port *)
+Theorem C31_ipv6_all_zoneless_accepted : forall a, wf_bytes a -> spec_ipv6 a = true -> zoneless a = true ->
+  validateIPv6Literal (LBR :: a ++ [RBR]) = V6Nil.
+Proof. exact ipv6_all_zoneless_accepted. Qed.
+Print Assumptions C31_ipv6_all_zoneless_accepted.
+
+Theorem C31_ipv6_all_zoneless_accepted_with_port : forall a port, wf_bytes a -> spec_ipv6 a = true -> zoneless a = true ->
+  is_port port = true -> validateIPv6Literal (LBR :: a ++ RBR :: port) = V6Nil.
+Proof. exact ipv6_all_zoneless_accepted_gen. Qed.
+Print Assumptions C31_ipv6_all_zoneless_accepted_with_port.
+
+(* stronger than the property asks: for address parts without ']' acceptance is EXACTLY "optional port and IPv6 text", zones included *)
+Theorem C31_ipv6_exact : forall a port, wf_bytes a -> ~ In RBR a ->
+  v6_ok (validateIPv6Literal (LBR :: a ++ RBR :: port)) = is_port port && spec_ipv6 a.
+Proof. exact v6_bracket. Qed.
+Print Assumptions C31_ipv6_exact.
+
+(* the model's loop fuel is never exhausted *)
+Theorem C31_ipv6_model_total : forall s, wf_bytes s -> parseIPv6Hextets s false <> HexOutOfFuel.
+Proof. exact hextets_total. Qed.
+Print Assumptions C31_ipv6_model_total.
+
+Example C31_ex_ipv6 :
+  map (fun a => (spec_ipv6 (s2b a), v6_ok (validateIPv6Literal (LBR :: s2b a ++ [RBR]))))
+      ["::1"; "::"; "1:2:3:4:5:6:7:8"; "1:2:3:4:5:6:7::"; "::ffff:1.2.3.4"; "fe80::1%en0"; "1:2:3:4:5:6:7:8::"; "::ffff:01.2.3.4"; "1::2::3"; ":::"; "12345::"; "fe80::1%"; "1.2.3.4"]%string
+  = [(true, true); (true, true); (true, true); (true, true); (true, true); (true, true); (false, false); (false, false); (false, false); (false, false); (false, false); (false, false); (false, false)]
+  /\ v6_ok (validateIPv6Literal (s2b "[::1]]")) = false /\ v6_ok (validateIPv6Literal (s2b "[::1]x")) = false
+  /\ v6_ok (validateIPv6Literal (s2b "[::1]:80")) = true.
+Proof. vm_compute. repeat split; reflexivity. Qed.
 
 Example C31_ex_date : parseRFC1123DateGMT (s2b "Sun, 06 Nov 1994 08:49:37 GMT") = Some 784111777
   /\ parseRFC1123DateGMT (s2b "sUN, 06 nOV 1994 08:49:37 GMT") = Some 784111777
